@@ -44,6 +44,14 @@ def make_convention(conv):
         # no edge_dimension attribute: the edge grid is implied by the one edge table the file has
         ds = builders.ugrid('tqp', supply=('edge_node',), edge_dimension_attr=False)
         return ds, UGrid(ds)
+    if conv == 'ugrid-transposed':
+        # connectivity stored (nodes per face, faces): the face_dimension / edge_dimension attributes name the grids
+        ds = builders.ugrid('tqp', supply=('edge_node',), transposed=True)
+        return ds, UGrid(ds)
+    if conv == 'cf1d-othernames':
+        # latitude(y) / longitude(x): coordinate variables that are not named after their dimensions
+        ds = builders.cf1d(2, 3, ydim='lat', xdim='lon', lat_name='latitude', lon_name='longitude')
+        return ds, CFGrid1D(ds)
     if conv == 'ugrid-noedge':
         # a mesh that has no edges at all: two grids, and a variable on neither is on no grid
         ds = builders.ugrid('tqp')
@@ -338,7 +346,7 @@ def body_default_linear_collision(ctx, conv, taken):
 KINDS = {'cf1d': ['face'], 'cf2d': ['face'], 'shoc_simple': ['face'],
          'shoc_standard': ['face', 'left', 'back', 'node'], 'ugrid': ['face', 'edge', 'node'],
          'ugrid-implied': ['edge'], 'ugrid-implied-ef': ['edge'], 'ugrid-edges-declared': ['face', 'node'],
-         'ugrid-noedge': ['face', 'node'], 'cf1d-named': ['face']}
+         'ugrid-noedge': ['face', 'node'], 'cf1d-named': ['face'], 'ugrid-transposed': ['face', 'edge'], 'cf1d-othernames': ['face']}
 
 
 def cases(tier):
